@@ -404,7 +404,9 @@ func (brr *BalanceRR) simpleBalance() (*backend.BfeBackend, error) {
 				backend.Name, avail, backendRR.weight)
 		}
 
-		if avail && backendRR.weight != 0 {
+		// only a backend with positive weight can become schedulable after a reset;
+		// a negative weight must not keep the rescan loop alive
+		if avail && backendRR.weight > 0 {
 			allBackendDown = false
 		}
 
